@@ -263,6 +263,20 @@ func walkOne(w *tr.Writer, tid *int, src []byte, seed int64, kinds map[string]bo
 			return id != 1 && h.Sum32()%5 == 0
 		}},
 		{"leaves", func(id int, kind string) bool { return kind == "Var" || kind == "LiteralExpr" }},
+		// structural policies: stop at every inner node that is the first child of its parent; at every node of the same type
+		// as its parent (left / right spines of binary, member, call, comma, conditional chains); at every inner node that is a later child
+		{"first-children", func(id int, kind string) bool {
+			n := t.nodes[id-1]
+			return n.parent > 0 && len(n.kids) > 0 && t.nodes[n.parent-1].kids[0] == id
+		}},
+		{"same-type-as-parent", func(id int, kind string) bool {
+			n := t.nodes[id-1]
+			return n.parent > 0 && t.nodes[n.parent-1].typ == n.typ
+		}},
+		{"later-children", func(id int, kind string) bool {
+			n := t.nodes[id-1]
+			return n.parent > 0 && len(n.kids) > 0 && t.nodes[n.parent-1].kids[0] != id
+		}},
 	}
 	for _, p := range policies {
 		*tid++
@@ -297,6 +311,9 @@ var snippets = []string{
 	"new A", "new A(b)", "x=-a", "x=!a", "x=typeof a", "x=a++", "x=a+b*c", "x=a?b:c", "x=a=>b", "x=(a,b)=>{c}", "x=async a=>b", "x=async(a)=>b", "x=a??b",
 	"x=a**b", "x=a in b", "x=a instanceof b", "x=/a/g", "x=1n", "x=null", "x=this", "x=super.a", "a,b", "x=await a", "/*! bang */a", "#!shebang\na",
 	"import('a')", "x=a||b&&c", "label:a", "x=void 0", "x=delete a.b", "if(a){b}else if(c){d}else{e}", "x=function*(){yield}", "var a;a=function(){var b;return b}",
+	// chains: the same node type nested on the left and on the right
+	"x=a+b+c+d", "x=a**b**c", "x=a.b.c.d", "x=a(b)(c)(d)", "x=a?.b?.c", "x=(a,b,c,d)", "x=a?b:c?d:e", "x=a?b?c:d:e", "x=a=b=c", "x=-!~a", "x=a||b||c&&d&&e", "if(a)if(b)if(c)d",
+	"x=[[[a]]]", "x={a:{b:{c}}}", "x=()=>()=>a", "function f(...args){}", "x=(...a)=>1", "x={m(...more){}}", "function g(...[p,q]){}", "a:b:c:d",
 	"for(let [a,b] of c){}", "for(var {a} in b){}", "x=({a:[b,{c}]})=>d", "class A{static async*[a](){}}", "x={async*[a](){}}", "x=a?.b.c(d)[e]",
 }
 
